@@ -93,7 +93,9 @@ SLICES = {
         # the full option product NumRetries {0,1,2} x NoRetryMax {no,yes}
         ("retry1", cfg(Retries="{0,1,2}", NoMaxes="{0,1}", MaxFail=3, MaxCancel=1)),
         ("cancel2", cfg(MaxBatch=2, MaxCancel=1)),
-        ("timers1", cfg(Retries="{0,2}", NoMaxes="{0,1}", Hards="{0,1}", Progs="{0,1}", MaxFail=2, MaxStale=1)),
+        ("timers1", cfg(Retries="{2}", NoMaxes="{0,1}", Hards="{0,1}", Progs="{0,1}", MaxFail=2, MaxStale=1)),
+        ("timersA", cfg(NAddr=1, MaxConn=1, Retries="{0,2}", NoMaxes="{0,1}", Hards="{0,1}", Progs="{0,1}",
+                        MaxFail=2, MaxStale=1)),
         ("timersB", cfg(NAddr=1, MaxConn=1, MaxBatch=2, MaxReq=2, Hards="{1}", Progs="{1}", MaxStale=1)),
         ("timersC", cfg(Hards="{1}", Progs="{1}", MaxStale=1, MaxCancel=1)),
         # three addresses competing by rank; four peer objects of one address; three requests per batch
